@@ -29,6 +29,9 @@ func checkC17(c *Check) {
 	if !c.Anchor("sshd dispatcher", d != nil) {
 		return
 	}
+	for _, pr := range d.Problems {
+		c.Unk("dispatch-table", pr, "-", "dispatch row not understood")
+	}
 	found := 0
 	for _, m := range c17Messages {
 		var rv *RegexVar
@@ -248,6 +251,54 @@ func checkC17(c *Check) {
 	// the dispatcher
 	spacingRule(c)
 	c.Floor("functions between the ingester callback and the dispatcher", 2, lineReachesDispatcher(c))
+	rawJSONFromMarshal(c)
+}
+
+// rawJSONFromMarshal: raw JSON attached to an event of the sshd processor is
+// the output of a JSON marshaller. Text pasted into a JSON document by
+// formatting or concatenation is not escaped: a client-chosen name with a
+// quote or a backslash makes the document invalid, the event writer refuses
+// the event, and the record of the failed attempt is dropped.
+func rawJSONFromMarshal(c *Check) {
+	p := c.P
+	n := 0
+	for _, fn := range p.AllRepoFuncs() {
+		if FuncPkgPath(fn) != ModPath+"/"+pkgSshd || fn.Blocks == nil {
+			continue
+		}
+		r := NewResolver(p)
+		allInstrs(fn, func(in ssa.Instruction) {
+			var src ssa.Value
+			switch x := in.(type) {
+			case *ssa.ChangeType:
+				if typeName(x.Type()) == "json.RawMessage" {
+					src = x.X
+				}
+			case *ssa.Convert:
+				if typeName(x.Type()) == "json.RawMessage" {
+					src = x.X
+				}
+			}
+			if src == nil {
+				return
+			}
+			n++
+			okAll := true
+			what := ""
+			for _, a := range r.Of(src).Alts() {
+				if a.K == "call" && (a.Name == "encoding/json.Marshal" || a.Name == "encoding/json.MarshalIndent") && a.Idx == 0 {
+					continue
+				}
+				if a.K == "const" || a.K == "zero" {
+					continue
+				}
+				okAll = false
+				what = trimOrg(a.String())
+			}
+			c.Cond(okAll, "unconditional-emit", "raw JSON built in "+fn.Name(), p.InstrPos(in), "output of json.Marshal", "raw JSON attached to an event is built from "+what+", not by a JSON marshaller: client-chosen text in it is not escaped, a name containing a quote or a backslash makes the event unencodable and the failed attempt goes unrecorded")
+		})
+	}
+	c.Floor("raw JSON conversions in the sshd processor", 1, n)
 }
 
 // usesRegex: fn calls FindStringSubmatch on the regex variable.
